@@ -7,6 +7,7 @@
 (*   Source(p)    the Rust source text of the macro invocation's argument. *)
 (* Lexemes (records tagged by t):                                          *)
 (*   int(neg, d)  flt(neg, d, e)  str(s)  chr(c)  true  false  nil         *)
+(*   fle(neg, d, e, xneg, x)   a float in exponent form: 1e3  2.5e-3       *)
 (*   id(s)     a Rust identifier used as a symbol                          *)
 (*   qsym(s)   #"..." symbol        psym(s)  punctuation-only symbol       *)
 (*   kw(style, s)  style: "octo" #:name | "colon" :name | "quoted" #:"..."  *)
@@ -41,6 +42,10 @@ FloatText(neg, d, e) ==
   LET k == 0 - e IN
   (IF neg THEN <<MINUS>> ELSE <<>>) \o DigitChars(SubSeq(d, 1, Len(d) - k)) \o <<DOT>> \o DigitChars(SubSeq(d, Len(d) - k + 1, Len(d)))
 
+\* exponent form: the digits (with a point if e < 0), "e", the signed exponent
+ExpFloatText(neg, d, e, xneg, x) ==
+  (IF e = 0 THEN SignedDigits(neg, d) ELSE FloatText(neg, d, e)) \o <<101>> \o (IF xneg THEN <<MINUS>> ELSE <<>>) \o DigitChars(x)
+
 RECURSIVE StripTrailingZeros2(_)
 StripTrailingZeros2(d) == IF Len(d) > 1 /\ d[Len(d)] = 0 THEN StripTrailingZeros2(SubSeq(d, 1, Len(d) - 1)) ELSE d
 \* value of the float lexeme: normalised decimal
@@ -60,6 +65,7 @@ JoinWith(ts, sep) == IF ts = <<>> THEN <<>> ELSE IF Len(ts) = 1 THEN ts[1] ELSE 
 ValueOf(p) ==
   CASE p.t = "int" -> LET d == Norm(p.d) IN IntV(p.neg /\ d # Zero, d)
     [] p.t = "flt" -> FloatValue(p.neg, p.d, p.e)
+    [] p.t = "fle" -> FloatValue(p.neg, p.d, p.e + (IF p.xneg THEN 0 - ToNat(Norm(p.x)) ELSE ToNat(Norm(p.x))))
     [] p.t = "str" -> Str(p.s)
     [] p.t = "chr" -> Char(p.c)
     [] p.t = "true" -> Bool(TRUE) [] p.t = "false" -> Bool(FALSE) [] p.t = "nil" -> Nil
@@ -75,6 +81,7 @@ ValueOf(p) ==
 Render(p) ==
   CASE p.t = "int" -> SignedDigits(p.neg, p.d)
     [] p.t = "flt" -> FloatText(p.neg, p.d, p.e)
+    [] p.t = "fle" -> ExpFloatText(p.neg, p.d, p.e, p.xneg, p.x)
     [] p.t = "str" -> StrText(p.s)
     [] p.t = "chr" -> <<HASH, BSL>> \o EncodeCp(p.c)
     [] p.t = "true" -> <<HASH, 116>> [] p.t = "false" -> <<HASH, 102>> [] p.t = "nil" -> <<HASH, 110, 105, 108>>
@@ -90,6 +97,7 @@ Render(p) ==
 Source(p) ==
   CASE p.t = "int" -> SignedDigits(p.neg, p.d)
     [] p.t = "flt" -> FloatText(p.neg, p.d, p.e)
+    [] p.t = "fle" -> ExpFloatText(p.neg, p.d, p.e, p.xneg, p.x)
     [] p.t = "str" -> StrText(p.s)
     [] p.t = "chr" -> <<SQ>> \o (IF p.c = SQ THEN <<BSL, SQ>> ELSE IF p.c = BSL THEN <<BSL, BSL>> ELSE EncodeCp(p.c)) \o <<SQ>>
     [] p.t = "true" -> <<HASH, 116>> [] p.t = "false" -> <<HASH, 102>> [] p.t = "nil" -> <<HASH, 110, 105, 108>>
@@ -141,7 +149,7 @@ NameTokens(s) == IF IsRustIdentName(s) THEN <<Ident(s)>> ELSE PunctRun(s)
 
 RECURSIVE Tokenize(_)
 Tokenize(p) ==
-  CASE p.t \in {"int", "flt"} ->
+  CASE p.t \in {"int", "flt", "fle"} ->
          (IF p.neg THEN <<Punct(MINUS, FALSE, TRUE)>> ELSE <<>>) \o <<Lit([p EXCEPT !.neg = FALSE])>>
     [] p.t \in {"str", "chr"} -> <<Lit(p)>>
     [] p.t = "true" -> <<Punct(HASH, FALSE, TRUE), Ident(<<116>>)>>
@@ -195,8 +203,8 @@ MParse(ts, i) ==
           ELSE IF t.c \in IdentStart THEN
             (IF t.joint THEN LET r == MIdent(ts, i + 1, <<t.c>>) IN MOk(Sym(r[1]), r[2])
              ELSE IF t.c = MINUS /\ more /\ ts[i + 1].k = "lit" /\ (MinusFusion \/ t.adj)
-                     /\ (FuseAnyLiteral \/ ts[i + 1].lex.t \in {"int", "flt"}) THEN
-                    (IF ts[i + 1].lex.t \in {"int", "flt"}
+                     /\ (FuseAnyLiteral \/ ts[i + 1].lex.t \in {"int", "flt", "fle"}) THEN
+                    (IF ts[i + 1].lex.t \in {"int", "flt", "fle"}
                        THEN MOk(ValueOf([ts[i + 1].lex EXCEPT !.neg = TRUE]), i + 2)
                        ELSE MErr(i))                           \* the generated Rust does not compile
              ELSE IF t.c = COLON /\ more /\ ts[i + 1].k = "lit" /\ (ColonFusion \/ t.adj)
@@ -254,11 +262,11 @@ MacroRead(p) ==
 RECURSIVE FusionSites(_)
 AdjacentSites(es) ==
   {<<"minus", 0>> : i \in {j \in 1..(Len(es) - 1) : es[j].t = "psym" /\ es[j].s = <<MINUS>>
-                              /\ \/ (es[j + 1].t \in {"int", "flt"} /\ ~es[j + 1].neg)
+                              /\ \/ (es[j + 1].t \in {"int", "flt", "fle"} /\ ~es[j + 1].neg)
                                  \/ (FuseAnyLiteral /\ es[j + 1].t \in {"str", "chr"})}}
   \cup {<<"colon", 0>> : i \in {j \in 1..(Len(es) - 1) : es[j].t = "psym" /\ es[j].s = <<COLON>>
                               /\ \/ es[j + 1].t \in {"id", "str"}
-                                 \/ (FuseAnyLiteral /\ (es[j + 1].t = "chr" \/ (es[j + 1].t \in {"int", "flt"} /\ ~es[j + 1].neg)))}}
+                                 \/ (FuseAnyLiteral /\ (es[j + 1].t = "chr" \/ (es[j + 1].t \in {"int", "flt", "fle"} /\ ~es[j + 1].neg)))}}
 FusionSites(p) ==
   IF p.t = "list" THEN
        LET all == IF p.tail.t = "none" THEN p.es ELSE Append(p.es, p.tail) IN
